@@ -133,6 +133,120 @@ def _random_ijv(rng, big):
     return {"fn": "ijv", "ijv": rows, "idx": idx}
 
 
+IMG_DTYPES = ["bool", "uint8", "uint16", "int16", "int32", "int64", "uint32", "int8", "uint64"]
+IJV_DTYPES = ["int64", "int32", "int16", "uint8", "uint16", "uint32", "uint64", "int8"]
+LAYOUTS = ["C", "F", "view", "rev", "rows"]
+IDX_KINDS = ["int64", "int32", "list", "tuple", "uint16", "uint32", "intp", "col2d"]
+
+
+def _decorate(rng, case):
+    """Give the call a dtype, a memory layout and an index-list type the entry point accepts; label
+    numbers are spread out as far as the dtype allows (sparse numbering up to 60000)."""
+    if case["fn"] == "labels":
+        a = np.asarray(case["img"], int).reshape(len(case["img"]), -1)
+        dt = IMG_DTYPES[rng.randint(len(IMG_DTYPES))]
+        if dt == "bool":
+            a = (a > 0).astype(int)
+            idx = case["idx"]
+            case["idx"] = None if idx is None else sorted(set(min(x, 2) for x in idx))
+        else:
+            hi = min(int(np.iinfo(np.dtype(dt)).max), 60000)
+            labs = [int(x) for x in np.unique(a) if x > 0]
+            req = sorted(set(labs) | set(x for x in (case["idx"] or []) if x > 0))
+            if req and rng.rand() < 0.6 and hi >= len(req):
+                new = sorted(int(x) for x in rng.choice(np.arange(1, hi + 1), len(req), replace=False))
+                if rng.rand() < 0.5:
+                    new = [new[k] for k in rng.permutation(len(new))]      # not order preserving
+                mp = dict(zip(req, new))
+                a = np.vectorize(lambda x: mp.get(int(x), 0))(a) if a.size else a
+                if case["idx"] is not None:
+                    case["idx"] = [mp.get(x, x) if x > 0 else x for x in case["idx"]]
+                    if len(set(case["idx"])) != len(case["idx"]):
+                        case["idx"] = sorted(set(case["idx"]))
+            if a.size and a.max() > np.iinfo(np.dtype(dt)).max:
+                dt = "int64"
+            if case["idx"] is not None:
+                case["idx"] = [x for x in case["idx"] if x <= np.iinfo(np.int32).max]
+        case["img"] = np.asarray(a, int).tolist()
+        case["dt"] = dt
+        case["lay"] = LAYOUTS[rng.randint(len(LAYOUTS))]
+    else:
+        m = max([max(r) for r in case["ijv"]] + [0])
+        ok = [d for d in IJV_DTYPES if m <= np.iinfo(np.dtype(d)).max]
+        case["dt"] = ok[rng.randint(len(ok))]
+        case["lay"] = ["C", "F", "rows", "rev"][rng.randint(4)]
+    iks = IDX_KINDS if not case["idx"] or max(case["idx"]) < 65536 else ["int64", "int32", "list", "tuple", "uint32", "intp", "col2d"]
+    case["ik"] = iks[rng.randint(len(iks))]
+    return case
+
+
+def _pair_layout(rng, maxdim):
+    """Several labels placed relative to each other: one label's last row is the next label's first row,
+    labels sharing columns, interleaved labels, images fully tiled with labels (no background)."""
+    H = int(rng.choice([2, 3, 4, 5, 6, 8] + ([12, 20] if maxdim > 12 else [])))
+    W = int(rng.choice([2, 3, 4, 5, 6, 8] + ([12, 20] if maxdim > 12 else [])))
+    kind = ["row-touch", "stacked", "interleave-cols", "interleave-rows", "checker", "tiles", "stripes-diag", "nested"][rng.randint(8)]
+    a = np.zeros((H, W), int)
+    if kind == "row-touch":                 # label k ends in the row where label k+1 starts, other columns
+        nl = int(rng.choice([2, 3, 4])); r = 0
+        for l in range(1, nl + 1):
+            h = int(rng.randint(1, max(2, H // nl + 1)))
+            c0 = int(rng.randint(0, W)); c1 = int(rng.randint(c0, W))
+            a[r:r + h + 1, c0:c1 + 1] = np.where(a[r:r + h + 1, c0:c1 + 1] == 0, l, a[r:r + h + 1, c0:c1 + 1])
+            r = min(H - 1, r + h)
+            if rng.rand() < 0.5:
+                a[r, :] = np.where(a[r, :] == 0, (l + 1 if l < nl else l) * (rng.rand(W) < 0.5), a[r, :])
+    elif kind == "stacked":                 # same columns, one above the other
+        cut = sorted(set(int(x) for x in rng.randint(1, H, size=int(rng.choice([1, 2, 3])))))
+        l = 1; prev = 0
+        for c in cut + [H]:
+            a[prev:c, :] = l; l += 1; prev = c
+        a = a * (rng.rand(H, W) < rng.choice([0.6, 1.0]))
+    elif kind == "interleave-cols":
+        nl = int(rng.choice([2, 3])); a[:] = 1 + (np.arange(W)[None, :] % nl)
+        a = a * (rng.rand(H, W) < rng.choice([0.5, 0.8, 1.0]))
+    elif kind == "interleave-rows":
+        nl = int(rng.choice([2, 3])); a[:] = 1 + (np.arange(H)[:, None] % nl)
+        a = a * (rng.rand(H, W) < rng.choice([0.5, 0.8, 1.0]))
+    elif kind == "checker":
+        nl = int(rng.choice([2, 3, 4])); a[:] = 1 + ((np.arange(H)[:, None] + np.arange(W)[None, :]) % nl)
+    elif kind == "tiles":                   # Voronoi tiling: every pixel labelled
+        nl = int(rng.choice([1, 2, 3, 5, 8]))
+        sy = rng.randint(0, H, nl); sx = rng.randint(0, W, nl)
+        d = (np.arange(H)[:, None, None] - sy) ** 2 + (np.arange(W)[None, :, None] - sx) ** 2
+        a = 1 + np.argmin(d, axis=2)
+    elif kind == "stripes-diag":
+        nl = int(rng.choice([2, 3])); a[:] = 1 + (((np.arange(H)[:, None] + 2 * np.arange(W)[None, :]) // 2) % nl)
+    else:                                   # nested frames: label 2 inside label 1 inside label 3
+        a[:] = 3
+        if H > 2 and W > 2:
+            a[1:-1, 1:-1] = 1
+        if H > 4 and W > 4:
+            a[2:-2, 2:-2] = 2
+    present = [int(x) for x in np.unique(a) if x > 0]
+    return {"fn": "labels", "img": a.tolist(), "idx": _index_list(rng, present, False)}, kind
+
+
+def _pair_ijv(rng):
+    """ijv lists where consecutive labels share rows/columns or one ends where the next starts."""
+    nl = int(rng.choice([2, 3, 4]))
+    rows = []; r0 = 0
+    stride = int(rng.choice([1, 1, 2, 5]))
+    for l in range(nl):
+        v = 1 + l * int(rng.choice([1, 1, 3]))
+        h = int(rng.randint(0, 4)); w = int(rng.randint(1, 6))
+        c0 = int(rng.randint(0, 4)) if rng.rand() < 0.5 else 0
+        for i in range(r0, r0 + h + 1):
+            for j in range(c0, c0 + w):
+                if rng.rand() < 0.7 or (i in (r0, r0 + h) and j in (c0, c0 + w - 1)):
+                    rows.append([i, j * stride, v])
+        r0 = r0 + h if rng.rand() < 0.7 else int(rng.randint(0, r0 + h + 1))
+    rows = [rows[k] for k in rng.permutation(len(rows))]
+    labels = sorted(set(r[2] for r in rows))
+    idx = _index_list(rng, labels, True)
+    return {"fn": "ijv", "ijv": rows, "idx": labels if idx is None else idx}
+
+
 def _grid_sets(H, W):
     cells = [(i, j) for j in range(W) for i in range(H)]
     for bits in range(1, 1 << (H * W)):
@@ -181,6 +295,40 @@ def generate(ctx):
     # ijv lists
     for _ in range(ctx.n(1500, 10000)):
         cases.append(_random_ijv(rng, not ctx.quick())); ctx.count("ijv")
+    # several labels placed against each other (shared rows / columns, interleaved, fully tiled images)
+    for _ in range(ctx.n(1200, 8000)):
+        c, kind = _pair_layout(rng, ctx.n(12, 40))
+        cases.append(c); ctx.count("pair-" + kind)
+    for _ in range(ctx.n(600, 4000)):
+        cases.append(_pair_ijv(rng)); ctx.count("pair-ijv")
+    # dtype / memory layout / index-list type: decorate a copy of a share of the cases above and fresh ones
+    bl = [c for c in cases if c["fn"] == "labels"]
+    bi = [c for c in cases if c["fn"] == "ijv" and len(c["ijv"]) > 0]
+    picked = [bl[k] for k in rng.permutation(len(bl))[:ctx.n(1800, 9000)]] + \
+             [bi[k] for k in rng.permutation(len(bi))[:ctx.n(900, 4000)]]
+    for b in picked:
+        c = _decorate(rng, {kk: (list(v) if isinstance(v, list) else v) for kk, v in b.items()})
+        cases.append(c); ctx.count("dtype-" + c["fn"] + "-" + c["dt"]); ctx.count("layout-" + c["lay"]); ctx.count("idx-" + c["ik"])
+    # label images with negative pixel values: background-like for explicit non-negative index lists; with
+    # indexes=None or a negative index the kernel's assertion rejects the call (when it is reached)
+    for _ in range(ctx.n(200, 1500)):
+        lab = _label_image(rng, 12)
+        lab = np.where(rng.rand(*lab.shape) < 0.2, -rng.randint(1, 3, lab.shape), lab)
+        present = [int(x) for x in np.unique(lab) if x > 0]
+        idx = _index_list(rng, present, False)
+        if idx is not None and rng.rand() < 0.15:
+            idx = idx + [-1]
+        cases.append({"fn": "labels", "img": lab.tolist(), "idx": idx}); ctx.count("labels-negative-pixels")
+    for _ in range(ctx.n(60, 400)):
+        c = _random_ijv(rng, False)
+        u = rng.rand()
+        if u < 0.4 and c["ijv"]:
+            c["ijv"][rng.randint(len(c["ijv"]))][rng.randint(3)] = -1
+        elif u < 0.8:
+            c["idx"] = c["idx"] + [-2]
+        else:
+            c["ijv"] = []
+        cases.append(c); ctx.count("malformed-ijv")
     # malformed: empty ijv is rejected by both sides
     cases.append({"fn": "ijv", "ijv": [], "idx": [1]}); ctx.count("malformed-empty-ijv")
     cases.append({"fn": "ijv", "ijv": [], "idx": []}); ctx.count("malformed-empty-ijv")
@@ -202,33 +350,81 @@ def _idx_of(case):
     return sorted(int(x) for x in np.unique(a) if x != 0)
 
 
+def _inherit(case, sub):
+    for k in ("dt", "lay", "ik"):
+        if k in case:
+            sub[k] = case[k]
+    return sub
+
+
 def _alone_cases(case):
     """The same entry point applied to each requested label's own pixels only (None if it has none)."""
     res = []
     if case["fn"] == "ijv":
         for l in _idx_of(case):
             own = [r for r in case["ijv"] if r[2] == l]
-            res.append({"fn": "ijv", "ijv": own, "idx": [l]} if own else None)
+            res.append(_inherit(case, {"fn": "ijv", "ijv": own, "idx": [l]}) if own else None)
     else:
         a = np.asarray(case["img"], int).reshape(len(case["img"]), -1)
         for l in _idx_of(case):
-            res.append({"fn": "labels", "img": ((a == l) * l).tolist(), "idx": [l]} if l > 0 and (a == l).any() else None)
+            res.append(_inherit(case, {"fn": "labels", "img": ((a == l) * l).tolist(), "idx": [l]})
+                       if l > 0 and (a == l).any() else None)
     return res
+
+
+def _layout(a, lay):
+    """The same values in another memory layout (all are views/arrays NumPy callers really pass)."""
+    if lay in (None, "C"):
+        return np.ascontiguousarray(a)
+    if lay == "F":
+        return np.asfortranarray(a)
+    if lay == "view":                      # every second column of a wider array
+        big = np.zeros((a.shape[0], 2 * a.shape[1] + 1), a.dtype)
+        big[:, 1::2] = a
+        return big[:, 1::2]
+    if lay == "rev":                       # negative strides
+        return np.ascontiguousarray(a[::-1, ::-1])[::-1, ::-1]
+    if lay == "rows":                      # every third row of a taller array
+        big = np.zeros((3 * a.shape[0], a.shape[1]), a.dtype)
+        big[::3] = a
+        return big[::3]
+    raise ValueError("layout " + str(lay))
+
+
+def _indexes(case):
+    idx, ik = case["idx"], case.get("ik")
+    if idx is None:
+        return None
+    if ik == "list":
+        return [int(x) for x in idx]
+    if ik == "tuple":
+        return tuple(int(x) for x in idx)
+    if ik == "col2d":                      # the kernel ravel()s the index array
+        return np.array(idx, int).reshape(-1, 1)
+    return np.array(idx, {None: int, "int64": np.int64, "int32": np.int32, "uint16": np.uint16,
+                          "uint32": np.uint32, "intp": np.intp}[ik])
 
 
 def _call(case):
     from centrosome import cpmorphology as M
+    dt = np.dtype(case.get("dt") or "int64")
     if case["fn"] == "ijv":
-        arr = np.array(case["ijv"], int).reshape(-1, 3)
+        arr = _layout(np.array(case["ijv"], int).reshape(-1, 3).astype(dt), case.get("lay"))
         before = arr.copy()
-        h, c = M.convex_hull_ijv(arr, np.array(case["idx"], int))
+        h, c = M.convex_hull_ijv(arr, _indexes(case))
         r = _res(h, c)
         r["input_kept"] = bool(np.array_equal(arr, before))
         return r
     a = np.array(case["img"], int).reshape(len(case["img"]), -1)
-    idx = None if case["idx"] is None else np.array(case["idx"], int)
-    h, c = M.convex_hull(a, idx)
-    return _res(h, c)
+    if a.size and (a.min() < np.iinfo(dt).min if dt != np.bool_ else a.min() < 0) or \
+       a.size and (a.max() > (1 if dt == np.bool_ else np.iinfo(dt).max)):
+        raise RuntimeError("generator bug: label does not fit dtype %s" % dt)
+    a = _layout(a.astype(dt), case.get("lay"))
+    before = a.copy()
+    h, c = M.convex_hull(a, _indexes(case))
+    r = _res(h, c)
+    r["input_kept"] = bool(np.array_equal(a, before))
+    return r
 
 
 def impl(case):
@@ -249,7 +445,7 @@ def _bad(o):
 def _marg(case):
     if case["fn"] == "ijv":
         return "entry_hull_ijv", [case["ijv"], case["idx"]]
-    return "entry_hull_labels", [case["img"], _idx_of(case)]
+    return "entry_hull_labels", [case["img"], -1 if case["idx"] is None else case["idx"]]
 
 
 def model(ctx, cases, outs):
@@ -274,14 +470,16 @@ def model(ctx, cases, outs):
     return mouts
 
 
-def _cmp(o, m, what):
+def _cmp(o, m, what, idx=None):
     if isinstance(m, dict):
         return "%s: model failed: %s" % (what, m)
     if m == -1:
         return None if _bad(o) and "exc" in o else "%s: model rejects the input, implementation returned %s" % (what, str(o)[:200])
     if _bad(o):
         return "%s: implementation raised/crashed: %s" % (what, str(o)[:300])
-    rows, counts, over, ncol = m
+    rows, counts, over, ncol = m[:4]
+    if len(m) > 4 and idx is not None and m[4] != idx:
+        return "%s: model's index list %s differs from the harness' %s" % (what, m[4], idx)
     if over:
         return "%s: model predicts that the in-place output overruns the label's own input rows" % what
     if rows != o["rows"] or counts != o["counts"] or ncol != o["ncol"]:
@@ -291,7 +489,7 @@ def _cmp(o, m, what):
 
 
 def compare(case, out, m):
-    d = _cmp(out, m["main"], "in company")
+    d = _cmp(out, m["main"], "in company", _idx_of(case) if case["fn"] == "labels" else None)
     if d:
         return d
     if _bad(out):
@@ -315,7 +513,11 @@ def _all_ijv(case):
 
 
 def _malformed(case):
-    return case["fn"] == "ijv" and len(case["ijv"]) == 0
+    """Calls the entry point rejects (empty ijv, negative entries; for label images only when the kernel is reached)."""
+    if case["fn"] == "ijv":
+        return len(case["ijv"]) == 0 or any(x < 0 for r in case["ijv"] for x in r) or any(x < 0 for x in case["idx"])
+    idx = _idx_of(case)
+    return len(idx) > 0 and any(v > 0 for r in case["img"] for v in r) and any(x < 0 for x in idx)
 
 
 def check(ctx, cases, outs):
@@ -324,7 +526,7 @@ def check(ctx, cases, outs):
     for k, (c, o) in enumerate(zip(cases, outs)):
         if _malformed(c):
             if not (isinstance(o, dict) and "exc" in o):
-                res[k] = "empty point list was not rejected: %s" % (str(o)[:200],)
+                res[k] = "malformed call (empty point list / negative entry) was not rejected: %s" % (str(o)[:200],)
             continue
         if _bad(o):
             res[k] = "implementation raised/crashed on a valid input: %s" % (str(o)[:300],)
@@ -375,8 +577,8 @@ def kernel_crosscheck(ctx, cases, outs):
     bad = [k for k, b in zip(idx, r) if b is not True]
     idl = [k for k, c in enumerate(cases) if c["fn"] == "labels" and not _bad(outs[k])
            and len(c["img"]) * len(c["img"][0]) <= 30][:20]
-    args = [[cases[k]["img"], _idx_of(cases[k])] for k in idl]
-    exp = [[outs[k]["rows"], outs[k]["counts"], 0, outs[k]["ncol"]] for k in idl]
+    args = [[cases[k]["img"], -1 if cases[k]["idx"] is None else cases[k]["idx"]] for k in idl]
+    exp = [[outs[k]["rows"], outs[k]["counts"], 0, outs[k]["ncol"], _idx_of(cases[k])] for k in idl]
     r = ctx.coq_eval_eq("Model.Hull", "entry_hull_labels", args, exp, tag="lab") if idl else []
     bad += [k for k, b in zip(idl, r) if b is not True]
     if bad:
